@@ -192,6 +192,17 @@ def cells(draw, families=FAMILIES, lo=2.0, hi=30.0, amin=55.0, amax=125.0):
         return fam, [a, a, a, al, al, al]
     if fam == "monoclinic":
         return fam, [a, draw(L), draw(L), 90., draw(A), 90.]
+    if fam == "pseudo":
+        # a cell of a special family, strained a little: angles 1e-6..1e-2 degrees and lengths 1e-8..1e-3 (relative)
+        # away from the special values - what a refined grain of a cubic/tetragonal/hexagonal phase looks like
+        base = draw(st.sampled_from(["cubic", "tetragonal", "orthorhombic", "hexagonal"]))
+        b, c = (a, a) if base == "cubic" else ((a, draw(L)) if base in ("tetragonal", "hexagonal") else (draw(L), draw(L)))
+        ang = [90., 90., 120. if base == "hexagonal" else 90.]
+        E = st.sampled_from([0.0, 1e-6, 1e-5, 1e-4, 5e-4, 9e-4, 2e-3, 1e-2])
+        S = st.sampled_from([-1.0, 1.0])
+        ang = [x + draw(S) * draw(E) for x in ang]
+        R = st.sampled_from([0.0, 1e-8, 1e-6, 1e-4, 1e-3])
+        return fam, [a * (1 + draw(S) * draw(R)), b * (1 + draw(S) * draw(R)), c * (1 + draw(S) * draw(R))] + ang
     # triclinic: need cos(al+be) < cos(ga) < cos(al-be) (positive Gram determinant)
     al = draw(A)
     be = draw(A)
